@@ -14,6 +14,7 @@
 (*   "cat"  n categories               mid-point = first                   *)
 (*   "ord"  n ordered categories       mid-point = entry n \div 2          *)
 (*   "fin"  n equally spaced values    mid-point = nearest to (l+u)/2      *)
+(*   "logint" integers l..u, log scale mid-point = round(sqrt(l u))         *)
 (***************************************************************************)
 EXTENDS Integers, Sequences, FiniteSets, TLC, SequencesExt
 
@@ -28,14 +29,20 @@ VARIABLES
 vars == <<cf, queue, suggested, nsug, done, flags>>
 Flag(c, f) == IF c THEN {f} ELSE {}
 
-Size(d) == IF d.kind = "int" THEN d.u - d.l + 1 ELSE d.n
+\* "cont": a continuous domain; the driver logs index 0 for a value inside the bounds (exact comparison), -1 otherwise
+Size(d) == IF d.kind \in {"int", "logint"} THEN d.u - d.l + 1 ELSE IF d.kind = "cont" THEN 1 ELSE d.n
+\* geometric mid-point of a log-scaled integer range, rounded to the nearest integer:
+\* m with (2m - 1)^2 <= 4 l u < (2m + 1)^2   (4 l u is even, an odd square is odd: no rounding tie)
+GeoMid(l, u) == CHOOSE m \in l..u : (2 * m - 1) * (2 * m - 1) <= 4 * l * u /\ 4 * l * u < (2 * m + 1) * (2 * m + 1)
 \* round half to even of a / 2
 HalfEven(a) == IF a % 2 = 0 THEN a \div 2 ELSE (IF ((a - 1) \div 2) % 2 = 0 THEN (a - 1) \div 2 ELSE (a + 1) \div 2)
 MidIndex(d) ==
   CASE d.kind = "int" -> HalfEven(d.l + d.u) - d.l
+    [] d.kind = "logint" -> GeoMid(d.l, d.u) - d.l
     [] d.kind = "cat" -> 0
     [] d.kind = "ord" -> d.n \div 2
     [] d.kind = "fin" -> HalfEven(d.n - 1)
+    [] d.kind = "cont" -> 0
 Impute(p) == [i \in 1..Len(cf.doms) |-> IF p[i] = -1 THEN MidIndex(cf.doms[i]) ELSE p[i]]
 Dedup(s) == LET F[i \in 0..Len(s)] == IF i = 0 THEN <<>>
                                        ELSE IF \E j \in 1..Len(F[i-1]) : F[i-1][j] = s[i] THEN F[i-1] ELSE Append(F[i-1], s[i])
@@ -44,9 +51,11 @@ InitialQueue(c) == LET imp == [k \in 1..Len(c.p2e) |-> [i \in 1..Len(c.doms) |->
                                    IF c.p2e[k][i] = -1 THEN
                                      (LET d == c.doms[i] IN
                                       CASE d.kind = "int" -> HalfEven(d.l + d.u) - d.l
+                                        [] d.kind = "logint" -> GeoMid(d.l, d.u) - d.l
                                         [] d.kind = "cat" -> 0
                                         [] d.kind = "ord" -> d.n \div 2
-                                        [] d.kind = "fin" -> HalfEven(d.n - 1))
+                                        [] d.kind = "fin" -> HalfEven(d.n - 1)
+                                        [] d.kind = "cont" -> 0)
                                    ELSE c.p2e[k][i]]]
                    IN Dedup(imp)
 SpaceSize == LET F[i \in 0..Len(cf.doms)] == IF i = 0 THEN 1 ELSE F[i-1] * Size(cf.doms[i]) IN F[Len(cf.doms)]
@@ -71,7 +80,7 @@ EvSuggest(c, keys, consts, types) ==
 
 \* suggest() returned None ("nothing left")
 EvNone ==
-  /\ flags' = flags \cup Flag((cf.norepeat /\ ~(cf.finite /\ Cardinality(suggested) >= SpaceSize)) \/ queue # <<>>, "none_premature")
+  /\ flags' = flags \cup Flag((cf.norepeat /\ cf.finite /\ Cardinality(suggested) < SpaceSize) \/ queue # <<>>, "none_premature")
   /\ done' = TRUE
   /\ UNCHANGED <<cf, queue, suggested, nsug>>
 
